@@ -349,10 +349,17 @@ def gen(run_seed, tier):
                 ops.insert(r.randint(ends[-1] + 2, len(ops)), {'op': 'write', 'w': i, 'len': s_})
 
     fam = sut + ('-cd' if disrupted else '')
-    return {'family': fam, 'sut': sut, 'mgr_buffer': sut == 'manager' and r.random() < 0.2,
-            'n': n, 'content_seed': r.getrandbits(48), 'hash_mode': hash_mode, 'declared': declared,
-            'exec_delay': r.choice([[0.0, 0.0], [0.0, 0.002], [0.0, 0.002], [0.001, 0.001]]),
-            'writers': writers, 'ops': ops}
+    sc = {'family': fam, 'sut': sut, 'mgr_buffer': sut == 'manager' and r.random() < 0.2,
+          'n': n, 'content_seed': r.getrandbits(48), 'hash_mode': hash_mode, 'declared': declared,
+          'exec_delay': r.choice([[0.0, 0.0], [0.0, 0.002], [0.0, 0.002], [0.001, 0.001]]),
+          'writers': writers, 'ops': ops}
+    # second download epoch on the same blob object: the stored copy is dropped through the API (delete(), or the
+    # consuming read of a BlobBuffer) and the blob is downloaded again (own stream: earlier histories unchanged)
+    r2 = stream('C01.gen.epoch2', run_seed)
+    if r2.random() < 0.3:
+        sc['epoch2'] = {'drop': r2.choice(['delete', 'delete', 'read']), 'chunks': r2.choice([1, 2, 3]),
+                        'writers': r2.choice([1, 1, 2]), 'set_length': r2.random() < 0.8}
+    return sc
 
 
 def shrink(sc):
@@ -941,6 +948,74 @@ def execute(scenario, keep_trace=False):
             if data != content:
                 run.violation('C01.verified_wrong_bytes', 'reader_context() returned bytes that differ from the content',
                               what='reader', sut=sut)
+                return
+        await epoch2(blob)
+
+    async def settle():
+        for k in range(200):
+            await pause(0.01)
+            if k >= 2 and not loop._scheduled and not loop._ready:
+                return
+
+    async def epoch2(blob):
+        """Statement, second half, on a blob object with a past: once the stored copy is gone, a writer that
+        delivers a complete correct copy makes the blob verified again with exactly those bytes stored."""
+        e2 = scenario.get('epoch2')
+        if not e2 or run.violations or not hash_ok or not 0 < n <= MAX:
+            return
+        m['hook_on'] = False
+        had_copy = blob.get_is_verified()
+        m['deletes'] += 1           # one more verification (and completion callback) is legitimate from here on
+        try:
+            if not (is_buffer and e2.get('drop') == 'read' and not blob.get_is_verified() and m['deletes'] == 1):
+                blob.delete()       # (a BlobBuffer whose copy was just consumed by the reader check needs no delete)
+            else:
+                run.probes['epoch2_after_buffer_read'] += 1
+            await settle()
+            if blob.get_is_verified():
+                return              # outside the clause (nothing was dropped)
+            if e2.get('set_length', True) or blob.get_length() is None:
+                blob.set_length(n)
+            if blob.get_length() != n:
+                run.probes['epoch2_length_stuck'] += 1
+                return
+            ws = [blob.get_blob_writer('10.9.9.%d' % (k + 1), 4900 + k) for k in range(int(e2.get('writers', 1)))]
+            parts = max(1, min(int(e2.get('chunks', 1)), n))
+            step = -(-n // parts)
+            for off in range(0, n, step):
+                ws[0].write(content[off:off + step])
+                await pause(0)
+            await settle()
+        except Exception as e:  # noqa
+            exc_violation('second download epoch', e)
+            return
+        run.probes['epoch2_checked'] += 1
+        if had_copy:
+            run.probes['epoch2_after_verified_copy'] += 1
+        verified = blob.get_is_verified()
+        stored = None
+        if verified:
+            if is_buffer:
+                with blob.reader_context() as reader:
+                    stored = reader.read()
+            else:
+                with open(os.path.join(blob_dir, blob_hash), 'rb') as f:
+                    stored = f.read()
+        run.ev('epoch2', verified, stored == content, [w.closed() for w in ws])
+        if not verified or stored != content:
+            run.violation('C01.not_verified_after_correct_copy',
+                          f'second download of the same blob object (stored copy dropped by '
+                          f'{"the consuming read" if is_buffer and e2.get("drop") == "read" else "delete()"}; first epoch '
+                          f'{"had" if had_copy else "had not"} verified): a writer delivered exactly the content (n={n}) but '
+                          f'at quiescence verified={verified} stored_equal={stored == content}',
+                          what='second_epoch', sut=sut)
+            return
+        for k, w in enumerate(ws[1:], 1):
+            if not w.closed():
+                run.violation('C01.loser_not_closed', f'second download epoch: writer {k} is still open after writer 0 '
+                              f'delivered a complete correct copy and the blob became verified', what='open',
+                              peer_key_reused=False)
+                return
 
     try:
         try:
